@@ -668,7 +668,6 @@ fn c10v<const NOT_IGNORE: bool>() {
         assert!(r.is_ok() == ans[1], "C10: a FINGERPRINT that does not verify fails the decode");
     } else {
         assert!(r.is_err(), "C04: a MESSAGE-INTEGRITY that does not verify fails the decode");
-        assert!(fp.calls == 0);
     }
     if r.is_ok() {
         let n = unsafe { REC_N };
